@@ -76,7 +76,12 @@ class StructureMetaType(MetaType):
             and len(args[0]) == cls.__fields__[0].type.size
         ):
             # Shortcut for single char/bytes type
-            return type.__call__(cls, *args, **kwargs)
+            obj = type.__call__(cls, *args, **kwargs)
+            # This is indistinguishable from parsing the bytes, so keep the same bookkeeping as a read
+            field = cls.__fields__[0]
+            object.__setattr__(obj, "_values", {field._name: getattr(obj, field._name)})
+            object.__setattr__(obj, "_sizes", {field._name: len(args[0])})
+            return obj
         if not args and not kwargs:
             obj = type.__call__(cls)
             object.__setattr__(obj, "_values", {})
